@@ -54,14 +54,18 @@ def make_shape(ctx, kind, f, k):
         name = "SYMF"
 
         def _thermoFactor(self, ar):
+            if callable(f):
+                return np.array([f(a) for a in ar]) if len(ar) else np.ones(ar.shape)
             return f * np.ones(ar.shape)
 
         def _kineticFactor(self, ar):
+            if callable(k):
+                return np.array([k(a) for a in ar]) if len(ar) else np.ones(ar.shape)
             return k * np.ones(ar.shape)
     return SymbolicFactorShape()
 
 
-def mk_model(ctx, nb, elements, shape="sphere", strain=False, rmin_sym=True, nph=1):
+def mk_model(ctx, nb, elements, shape="sphere", strain=False, rmin_sym=True, nph=1, arfun=False):
     """real PrecipitateModel; the analysed precipitate phase is the last of nph phases: nb size classes on a symbolic grid,
     symbolic interfacial energy, molar volumes, minimum radius, shape factors and (optionally) a constant elastic strain
     energy.  The other phases carry different concrete parameters (they must not leak into the analysed phase)."""
@@ -83,7 +87,23 @@ def mk_model(ctx, nb, elements, shape="sphere", strain=False, rmin_sym=True, nph
         rmin = ctx.real("Rmin", (0.0, 0.6)); ctx.assume(rmin >= 0)
         pp.Rmin = rmin
     f = 1.0; k = 1.0
-    if shape != "sphere":
+    aspect = None
+    if shape != "sphere" and arfun:
+        # radius-dependent aspect ratio ar(R) = c + kk R > 1 (a user function, as accepted by setAspectRatio) and shape factors
+        # that are arbitrary positive functions of the aspect ratio
+        c = ctx.real("ar_c", (1.1, 2.0)); kk = ctx.real("ar_k", (0.2, 1.5))
+        ctx.assume(c > 1); ctx.assume(kk > 0)
+        aspect = lambda r: c + kk * r
+
+        def f(a):
+            val = ctx.uf("thermoFactor", a, rng=(0.8, 1.6)); ctx.assume(val > 0)
+            return val
+
+        def k(a):
+            val = ctx.uf("kineticFactor", a, rng=(0.5, 1.5)); ctx.assume(val > 0)
+            return val
+        pp.shapeFactor.setPrecipitateShape(make_shape(ctx, shape, f, k), aspect)
+    elif shape != "sphere":
         f = ctx.real("thermoFactor", (0.8, 1.6)); ctx.assume(f > 0)
         k = ctx.real("kineticFactor", (0.5, 1.5)); ctx.assume(k > 0)
         pp.shapeFactor.setPrecipitateShape(make_shape(ctx, shape, f, k), 2.0)
@@ -98,7 +118,7 @@ def mk_model(ctx, nb, elements, shape="sphere", strain=False, rmin_sym=True, nph
     pbm.min = b0; pbm.max = b0 + nb * w; pbm.bins = nb
     pbm.reset(False)
     m.PBM[tp] = pbm
-    return m, pp, dict(gamma=gamma, vmb=vmb, vma=vma, f=f, k=k, E=E, b0=b0, w=w, tp=tp, name=names[tp])
+    return m, pp, dict(gamma=gamma, vmb=vmb, vma=vma, f=f, k=k, E=E, b0=b0, w=w, tp=tp, name=names[tp], aspect=aspect)
 
 
 def sign_claims(ctx, tag, R, g, rcrit_prop, rcrit, unclamped):
@@ -112,11 +132,13 @@ def sign_claims(ctx, tag, R, g, rcrit_prop, rcrit, unclamped):
 
 
 # ----------------------------------------------------------------------------- C12.rcrit
-def rcrit(ctx, shape="sphere", strain=True):
+def rcrit(ctx, shape="sphere", strain=True, arfun=False):
     """nucleationBarrier on the volumetric driving force of volumetricDrivingForce: Rcrit = max(2 f gamma / dGvol, Rmin),
     Gcrit = 4 pi/3 gamma Rcrit^2 (bulk / dislocation); 0 for dGvol <= 0; and the Gibbs-Thomson energy of a particle of
-    the (unclamped) critical radius equals the chemical driving force (the link between the two code paths)"""
-    m, pp, s = mk_model(ctx, 2, ["A"], shape, strain)
+    the (unclamped) critical radius equals the chemical driving force (the link between the two code paths).
+    arfun: the aspect ratio is a function of the radius; f is the shape DESCRIPTION's thermodynamic factor at the aspect
+    ratio handed to nucleationBarrier (that of the previous critical radius, as _calcNucleationRate does)"""
+    m, pp, s = mk_model(ctx, 2, ["A"], shape, strain, arfun=arfun)
     x = ctx.real("x", (0.02, 0.3)); T = ctx.real("T", (500.0, 900.0))
     dgs = ctx.reals("chemDG", 2, (-1.0, 3.0))
     th = object.__new__(BinaryThermodynamics)
@@ -127,7 +149,13 @@ def rcrit(ctx, shape="sphere", strain=True):
         calls.append((xi, Ti, precPhase))
         return dgs[len(calls) - 1], ctx.uf("betaComp", Ti, rng=(0.5, 0.9))
     th._drivingForce = df
-    ar = pp.shapeFactor.aspectRatio(0.0)
+    if arfun:
+        Rprev = ctx.real("RcritPrev", (0.0, 2.0)); ctx.assume(Rprev >= 0)
+        ar = pp.shapeFactor.aspectRatio(Rprev)
+        fval = s["f"](s["aspect"](Rprev))
+    else:
+        ar = pp.shapeFactor.aspectRatio(0.0)
+        fval = s["f"]
     chem, vol, bcomp = nucfuncs.volumetricDrivingForce(th, np.array([x, x]), np.array([T, T]), pp, ar)
     ctx.observe("volDG", vol)
     R, G = nucfuncs.nucleationBarrier(vol, pp, ar)
@@ -140,14 +168,17 @@ def rcrit(ctx, shape="sphere", strain=True):
         ctx.prove("volumetric driving force = chemical / Vm - strain energy", ctx.eq(vol[i], dgs[i] / s["vmb"] - Evol))
         pos = vol[i] > 0
         den = ctx.ite(pos, vol[i], 1.0 + 0.0 * vol[i])
-        prop = 2 * s["f"] * s["gamma"] / den
-        ctx.prove("Rcrit = max(2 f gamma / dG, Rmin) for positive driving force",
+        prop = 2 * fval * s["gamma"] / den
+        ctx.prove("Rcrit = max(2 f gamma / dG, Rmin) for positive driving force" if not arfun else
+                  "Rcrit = max(2 f(ar) gamma / dG, Rmin) with f the description's thermodynamic factor at the aspect ratio passed in",
                   ctx.implies(pos, ctx.eq(R[i], ctx.ite(prop >= pp.Rmin, prop, pp.Rmin * 1.0))))
         ctx.prove("Rcrit >= Rmin for positive driving force", ctx.implies(pos, ctx.le(pp.Rmin * 1.0, R[i])))
         ctx.prove("Gcrit = 4 pi/3 gamma Rcrit^2", ctx.implies(pos, ctx.eq(G[i], 4 * np.pi / 3 * s["gamma"] * R[i] * R[i])))
         ctx.prove("no barrier reported for non-positive driving force",
                   ctx.implies(ctx.neg(pos), ctx.all([ctx.eq(R[i], 0.0), ctx.eq(G[i], 0.0)])))
         # link: the Gibbs-Thomson energy of a particle of critical size is the chemical driving force
+        if arfun:
+            continue     # with a radius-dependent aspect ratio the factor at Rcrit differs from the one used for Rcrit (by design)
         unclamped = ctx.all([pos, prop >= pp.Rmin])
         Rq = ctx.ite(unclamped, R[i], 1.0 + 0.0 * R[i])
         gt = pp.computeGibbsThomsonContribution(Rq)
@@ -296,7 +327,8 @@ _F_MULTI = [PrecipitateModel._singleGrowthMulti, MulticomponentThermodynamics.ge
 _F_BIN = [PrecipitateModel._createLookupBinary, PrecipitateModel._singleGrowthBinary, BinaryThermodynamics.getInterfacialComposition,
           GeneralThermodynamics.getInterdiffusivity]
 _A = ["gamma, molar volumes, thermodynamic / kinetic shape factors > 0; Rmin >= 0; size-class boundaries b0 + i*w, b0 > 0, w > 0",
-      "constant aspect ratio (sphere, or a user shape description with symbolic thermo / kinetic factor at aspect ratio 2)",
+      "constant aspect ratio (sphere, or a user shape description with symbolic thermo / kinetic factor at aspect ratio 2); C12.rcrit also with a "
+      "radius-dependent aspect ratio ar(R) = c + k R (c > 1, k > 0) and shape factors that are uninterpreted positive functions of the aspect ratio",
       "elastic strain energy: constant description, symbolic >= 0 where stated",
       "'below Rcrit shrinks' is claimed when 2 f gamma / dG >= Rmin (otherwise nucleationBarrier reports Rmin, not the root)"]
 _S_MULTI = ["MulticomponentThermodynamics.curvatureFactor: arbitrary CurvatureOutput with mc > 0 (pycalphad equilibrium + mobility)"]
@@ -307,8 +339,10 @@ _S_BIN = ["BinaryThermodynamics._interfacialComposition (per-temperature pycalph
 HARNESSES = [
     Harness("C12.rcrit", rcrit, functions=_F_COMMON, assumptions=_A, stubs=["_drivingForce (per-point pycalphad routine): arbitrary values"],
             bounds={"points": 2},
-            params={"quick": [{"shape": "sphere", "strain": True}, {"shape": "needle", "strain": True}, {"shape": "plate", "strain": False}],
-                    "thorough": [{"shape": sh, "strain": st} for sh in ("sphere", "needle", "plate") for st in (False, True)]}),
+            params={"quick": [{"shape": "sphere", "strain": True}, {"shape": "needle", "strain": True}, {"shape": "plate", "strain": False},
+                              {"shape": "needle", "strain": False, "arfun": True}, {"shape": "plate", "strain": True, "arfun": True}],
+                    "thorough": [{"shape": sh, "strain": st} for sh in ("sphere", "needle", "plate") for st in (False, True)] +
+                                [{"shape": sh, "strain": st, "arfun": True} for sh in ("needle", "plate") for st in (False, True)]}),
     Harness("C12.multi_sign", multi_sign, functions=_F_COMMON + _F_MULTI, assumptions=_A + ["volumetric driving force > 0; no elastic strain energy"],
             stubs=_S_MULTI, bounds={"classes": "nb", "solutes": "ne", "phases": "nph (the last one analysed)"},
             params={"quick": [{"nb": 2, "shape": "sphere", "ne": 2}, {"nb": 2, "shape": "needle", "ne": 2, "nph": 2}, {"nb": 3, "shape": "plate", "ne": 3}],
